@@ -57,6 +57,11 @@ def check(ctx):
             iw = enc_input(mm["e"])
             ok = len(iw) == 1 and iw[0].rhs == ("op", "~", valids)
         ctx.check(ok, "C24.push-free-slot", push.site, "CAM.push.free-slot-encoder", found=tstr(src), required="the slot is the first set bit of ~valids (a free slot)")
+        # an intermediate signal that carries the slot index holds every index 0..entries-1
+        so = ex.obj(slot) if slot[0] == "obj" else None
+        if so is not None:
+            ms = pmatch("Signal(range(Q_n), name=Q_nm)", so.ctor) or pmatch("Signal(range(Q_n))", so.ctor)
+            ctx.check(ms is not None and lin_equal(ms["n"], pat("self.entries_number")), "C24.slot-index-range", so.site, "CAM.push.slot.shape", found=tstr(so.ctor), required="Signal(range(entries_number)): a narrower index aliases the last slot onto slot 0")
         arr = {}
         for k, (i_, h) in ids.items():
             if k != "valid":
